@@ -2122,3 +2122,33 @@ func init() {
 		}
 	})
 }
+
+// addDoc appends the description of rules added by wrapRun to the rule set's explanation (evidence coverage.explanation).
+func addDoc(prop, text string) {
+	if rs := Registry[prop]; rs != nil {
+		rs.Explanation += " " + text
+	}
+}
+
+func init() {
+	addDoc("C01", "R01e ext. nil record bytes are returned only together with a non-nil error. R01f (= C05 R05c) the hierarchical readers return only nil, io.EOF or their fatal type, so a structural failure is latched instead of recurring as a per-record failure. R01g (= C07 R07a) the tokenizer's subtractive slice bound is in range for the configured scanner flags (a panicking Read returns none of the three outcomes).")
+	addDoc("C02", "R02b ext. the interning key of the declaration hash is injective in the JSON encoding (no hash/*, len, truncating slice) and the deep copy is not modified between copy and encoding. R02j (= C11 R11e/R11f) the query wrappers pass on exactly what the engine yields for the caller's expression.")
+	addDoc("C03", "K15 no make() size derives from a decoded declaration field. K16 every len(x)-k / x.Len()-k bound (constant k > 0) of a slice or index expression is dominated by a length guard. K17 every element taken out of a decoded container of declaration pointers and dereferenced is nil-tested on the way, or typed as object by the JSON schema at every decode position of the container (Go type x JSON schema path product); after the F14 repair the transform-declaration sites rest on the load-time validator (argued).")
+	addDoc("C04", "R04k every value use of io.EOF in the stream readers is dominated by evidence that the source is exhausted (err == io.EOF, failed more-input predicate, nil unit), lifted through unexported helpers to their call sites. R04l (= C11 R11e/R11f) query wrappers.")
+	addDoc("C05", "R05i manufactured io.EOF only on exhaustion evidence (as R04k). R05j a slice of structs grown by reslicing has its exposed element fully initialised in the growing function. R05k a consult-and-fill map in reader state keyed by a property of an object (field / niladic method result) does not store a value computed from the object itself.")
+	addDoc("C06", "R06j also covers R09i (borrowed slices parked in local aggregates across a refill). R06k the exported json-tagged fields of the csv/fixed-length declaration structs are never overwritten by library code, except the 4 enumerated defaulting sites. R06l an element moved field by field inside one slice carries every field. R06m a byte-rewriting reader wrapper on the input path is installed only under a condition reading a declared setting.")
+	addDoc("C07", "R07h no branch controlling a strs.ByteSplit* call depends on the bytes of the token (piece counts excepted). R07i the EDI declaration fields are never overwritten by library code. R07j rewriting input wrappers only under a declared setting. R07k the trailing-CR test is control-dependent on `segment delimiter == \"\\n\"` (directly or through a bool field stored only from such a test). R07l the CR/LF-only classification of a scanned token does not depend on the reader's configuration.")
+	addDoc("C08", "R08b ext. no delete/clear on the namespace table. R08i no unconditional byte-rewriting wrapper between the caller's reader and the XML/JSON decoder.")
+	addDoc("C09", "R09g no bufio.Reader.Buffered / json.Decoder.Buffered (buffer fill depends on the delivery schedule). R09i no refill of the decoder between parking a borrowed slice in a local aggregate (append of a reference-typed element, element store, map update) and a later use of the aggregate.")
+	addDoc("C10", "R10j also covers R09i. R10k (= C13 R13b) cache loaders read nothing but their key. R10l reslice growth initialises the exposed element. R10m element moves carry every field. R10n pooled maps/slices are empty on every path to Put. R10o memo tables keyed by a projection.")
+	addDoc("C11", "R11g the methods of the xpath.NodeNavigator implementation and their repository callees store only into the navigator itself or fresh objects (navigation is read-only).")
+	addDoc("C12", "R12i the stream readers' document-root field (by role: the *Node field no method assigns) is never passed to a release function; if no such field can be resolved the check fails.")
+	addDoc("C13", "R13a ext. hash key injective, deep copy unmodified before encoding. R13g (= C11 R11f) the cached and the uncached path compile the same string. R13h pooled containers are empty at Put. R13i memo tables keyed by a projection.")
+	addDoc("C14", "R14f outside initialisers the address of a package-level variable is only loaded, stored to, or passed to sync/sync.atomic (no pointer to a package-level variable is stored, returned, boxed or handed to other code). R14g no exported function writes into a map/slice argument. R14h the runtime a JavaScript program runs on is goja.New() or sync.Pool.Get on every path. Objects of types documented safe for concurrent use (regexp.Regexp, strings.Replacer, time.Location) held in package-level variables may be used through their methods.")
+	addDoc("C15", "R15k (= R14g) public functions leave their aggregate arguments alone. R15l (= C09 R09a/R09i) borrowed-buffer discipline. R15m pooled containers empty at Put.")
+	addDoc("C16", "R16g (= C09 R09c/R09d) no raw Read and no hand-written io.Reader in the input path. R16h (= C05 R05a.i/R05i, C04 R04k) io.EOF is reported or manufactured only on evidence that the source is exhausted: an input failure cannot end the stream cleanly.")
+	addDoc("C17", "R17f (= C04 R04i) marking, delivery and rejection of a candidate depend on the selection state only.")
+	addDoc("C18", "R18e (= R14f) no pointer to a package-level variable escapes (a shared default-encoding cell would be written through by encoding/json).")
+	addDoc("C19", "R19h (= C13 R13b) cache loaders read nothing but their key.")
+	addDoc("C20", "R20b ext. the _node text is the idr converter's result handed on unmodified. R20g the runtime a program runs on is goja.New() or sync.Pool.Get on every path. R20h pooled maps/slices are empty on every path to Put.")
+}
